@@ -183,11 +183,23 @@ pub trait CharacterDataMut: CharacterData + NodeMut {
     fn delete_data(&self, offset: usize, count: usize) -> error::Result<()>;
 
     fn replace_data(&self, offset: usize, count: usize, arg: &str) -> error::Result<()> {
-        let removed = self.substring_data(offset, count)?;
-        self.delete_data(offset, count)?;
-        if let Err(e) = self.insert_data(offset, arg) {
-            // A refused replacement leaves the data as it was.
-            self.insert_data(offset, removed.as_str())?;
+        let length = self.length();
+        if length < offset {
+            return Err(error::DomException::IndexSizeErr)?;
+        }
+
+        // The new data is validated as a whole; a refused replacement leaves the data as it
+        // was, and no intermediate state (the range deleted, nothing inserted yet) is judged.
+        let old = self.data()?;
+        let new = old
+            .chars()
+            .take(offset)
+            .chain(arg.chars())
+            .chain(old.chars().skip(offset + count.min(length - offset)))
+            .collect::<String>();
+        self.delete_data(0, length)?;
+        if let Err(e) = self.insert_data(0, new.as_str()) {
+            self.insert_data(0, old.as_str())?;
             return Err(e);
         }
         Ok(())
